@@ -7,7 +7,9 @@ pub mod c06;
 pub mod c07;
 pub mod c08;
 pub mod c09;
+pub mod c10;
 pub mod c11;
+pub mod c12;
 pub mod c13;
 pub mod c14;
 pub mod c18;
@@ -26,7 +28,9 @@ pub fn run(ctx: &mut Ctx) -> bool {
         "C07" => c07::run(ctx),
         "C08" => c08::run(ctx),
         "C09" => c09::run(ctx),
+        "C10" => c10::run(ctx),
         "C11" => c11::run(ctx),
+        "C12" => c12::run(ctx),
         "C13" => c13::run(ctx),
         "C14" => c14::run(ctx),
         "C18" => c18::run(ctx),
